@@ -1,7 +1,7 @@
 """C05 — bounded stand-in over program texts (see runtime/h_pipeline.py); contracts on the pipeline functions are added below as they are discharged."""
 ID = "C05"
 LEVEL = "exploration"
-FUNCTIONS = ['codelimit.common.Scanner:scan_file', 'codelimit.common.scope.scope_utils:unfold_scopes', 'codelimit.common.Scanner:_analyze_file']
+FUNCTIONS = ['codelimit.common.Scanner:scan_file', 'codelimit.common.scope.scope_utils:unfold_scopes', 'codelimit.common.Scanner:_analyze_file', 'codelimit.common.token_utils:get_balanced_symbol_token_indices', 'codelimit.common.scope.scope_utils:get_blocks']
 BOUNDED_BUDGET = 300
 TRUSTED = ["Pygments lexers (exercised, not verified)", "the canonical-program generator's expected values (computed from the derivation)"]
 ASSUMPTIONS = []
